@@ -15,8 +15,12 @@ func checkC01(r *Run) {
 		ruleA2(r, p)
 		ruleA3(r, p)
 		if cfg == "J" {
+			// Output must not leave two loggers appending into one context array (UpdateContext
+			// on both would cut a member in the middle): the completeness/independence rule of C05
+			ruleA12Copy(r, p)
 			ruleA4Confine(r, p)
 			ruleA4JSON(r, p)
+			ruleFloatGuard(r, p)
 		}
 	}
 	r.Floor("A3", 8)
